@@ -20,6 +20,9 @@ def closeU (a b : Float) (n : Float) : Bool :=
 def sameF (a b : Float) : Bool := (a.isNaN && b.isNaN) || a == b
 def getF (l : List String) (i : Nat) : Option Float := (l[i]?).bind pfl
 def deg : Float := 180 / 3.14159265358979323846
+/-- condition number of the stored eccentricity: `1/(1 − e²)` for an oblate ellipsoid (1 otherwise) -/
+def kapE (e2m : Float) : Float := if e2m < 1 then 1 / e2m else 1
+def e2mOfF (f : Float) : Float := 1 - f * (2 - f)
 
 def handle (op : String) (args res : List String) : Option Verdict :=
   match op with
@@ -28,14 +31,17 @@ def handle (op : String) (args res : List String) : Option Verdict :=
     | some [tau, es], some [v] =>
       let m : Float := taupf tau es
       -- hyp(sig)·tau − sig·hyp(tau): no cancellation for |es| < 1 beyond a factor 1/(1 − es²)
-      if closeU m v (32 / (1 - es * es)) then .ok else .bad s!"Math::taupf({shw tau}, {shw es}) = {shw v}, formula model {shw m}"
+      -- (for a prolate ellipsoid, es < 0, both products have the same sign)
+      let e2m := 1 - es * Float.abs es
+      if closeU m v (32 * (if e2m < 1 then 1 / e2m else 1)) then .ok else .bad s!"Math::taupf({shw tau}, {shw es}) = {shw v}, formula model {shw m}"
     | _, _ => .bad "parse"
   | "tauf" => some <|
     match args.mapM pfl, res.mapM pfl with
     | some [taup, es], some [v] =>
       let m : Float := tauf taup es
       let m2 : Float := tauf (taup * (1 + 4 * epsF)) es
-      let tol := 64 * epsF * Float.abs m + 4 * Float.abs (m2 - m)
+      let tol := 64 * kapE (1 - es * Float.abs es) * epsF * Float.abs m + 4 * Float.abs (m2 - m)
+      if !(taufConv taup es) then .skip "the Newton loop of Math::tauf runs into its cap (50 iterations since 707b423, finding F88): nothing to compare" else
       if sameF m v || Float.abs (m - v) ≤ tol then .ok else .bad s!"Math::tauf({shw taup}, {shw es}) = {shw v}, Newton model {shw m} (tolerance {tol})"
     | _, _ => .bad "parse"
   | "psfwd" => some <|
@@ -45,10 +51,11 @@ def handle (op : String) (args res : List String) : Option Verdict :=
       let northp := np != "0"
       let o := psForward P northp (lf == 90) tau sl cl
       let sc := Float.abs o.x + Float.abs o.y
-      let okxy := (sameF o.x x || Float.abs (o.x - x) ≤ 64 * epsF * sc) && (sameF o.y y || Float.abs (o.y - y) ≤ 64 * epsF * sc)
+      let kp := kapE (e2mOfF f)
+      let okxy := (sameF o.x x || Float.abs (o.x - x) ≤ 64 * kp * epsF * sc) && (sameF o.y y || Float.abs (o.y - y) ≤ 64 * kp * epsF * sc)
       let okg := !(Float.abs lon < 180) || g == (if northp then lon else -lon)
       if !okxy then .bad s!"PolarStereographic::Forward: impl=({shw x},{shw y}) formula model=({shw o.x},{shw o.y})"
-      else if !closeU o.k k 64 then .bad s!"PolarStereographic::Forward: k impl={shw k} model={shw o.k}"
+      else if !closeU o.k k (64 * kp) then .bad s!"PolarStereographic::Forward: k impl={shw k} model={shw o.k}"
       else if !okg then .bad s!"PolarStereographic::Forward: gamma={shw g} for lon={shw lon}"
       else .ok
     | _, _, _, _, _, _, _, _, _, _ => .bad "parse"
@@ -63,8 +70,10 @@ def handle (op : String) (args res : List String) : Option Verdict :=
       let mlat := sg * Float.atan r.tau * deg
       let mlat2 := sg * Float.atan r2.tau * deg
       let mlon := Float.atan2 r.lonx r.lony * deg
-      let tlat := 1e-13 + 4 * Float.abs (mlat2 - mlat)
-      let tk := 64 * epsF * Float.abs r.k + 4 * Float.abs (r2.k - r.k)
+      let kp := kapE (e2mOfF f)
+      let tlat := 1e-13 * kp + 4 * Float.abs (mlat2 - mlat)
+      let tk := 64 * kp * epsF * Float.abs r.k + 4 * Float.abs (r2.k - r.k)
+      if !(taufConv (psTaup P x y) P.es) then .skip "the Newton loop of Math::tauf runs into its cap (50 iterations since 707b423, finding F88): nothing to compare" else
       if !(sameF mlat lat || Float.abs (mlat - lat) ≤ tlat) then .bad s!"PolarStereographic::Reverse: lat impl={shw lat} model={shw mlat} (tolerance {tlat})"
       else if !(sameF mlon lon || Float.abs (mlon - lon) ≤ 1e-13 || Float.abs (Float.abs (mlon - lon) - 360) ≤ 1e-13) then .bad s!"PolarStereographic::Reverse: lon impl={shw lon} model={shw mlon}"
       else if !(sameF r.k k || Float.abs (r.k - k) ≤ tk) then .bad s!"PolarStereographic::Reverse: k impl={shw k} model={shw r.k}"
@@ -79,7 +88,7 @@ def handle (op : String) (args res : List String) : Option Verdict :=
         | some v =>
           let m := psSetScale (⟨a, f, k0⟩ : PS Float) (lat == 90) tau k
           if !accept then .bad s!"PolarStereographic::SetScale({shw lat}, {shw k}) accepted; the model rejects"
-          else if closeU m v 64 then .ok else .bad s!"PolarStereographic::SetScale: k0 impl={shw v} model={shw m}"
+          else if closeU m v (64 * kapE (e2mOfF f)) then .ok else .bad s!"PolarStereographic::SetScale: k0 impl={shw v} model={shw m}"
         | none => .bad "parse"
     | _, _ => .bad "parse"
   | "cdd" => some <|
@@ -135,6 +144,9 @@ def handle (op : String) (args res : List String) : Option Verdict :=
     | _, _, _ => .bad "parse"
   | "pt" => some (.skip "closed forms, closures, conformality / equal-area and wrap laws are judged by the harness on the implementation")
   | "cfgprops" => some (.skip "configuration-level oracles are judged by the harness on the implementation")
+  | "statics" => some (.skip "the static instances are compared bit for bit with freshly constructed objects by the harness")
+  | "sshist" => some (.skip "SetScale histories are judged by the harness on the implementation")
+  | "conicproj" => some (.skip "the command-line tool is compared with direct calls of the classes by the harness")
   | _ => C11K.handleK op args res
 
 end GeoVerif.Corr.C11
